@@ -24,10 +24,18 @@ const (
 	FaultPartial    = "error_with_partial_data"
 	FaultTransient  = "transient_custom"
 	FaultTypedEOF   = "typed_error_then_eof" // first failing Read returns a *DeviceFault, every later Read returns io.EOF
+	FaultTemporary  = "temporary_error"      // an error whose Temporary() method reports true (EAGAIN-like), returned on every Read from the fault on
 )
 
+// TemporaryFault is an error with Temporary() == true that nevertheless never goes away.
+type TemporaryFault struct{}
+
+func (TemporaryFault) Error() string   { return "verif: resource temporarily unavailable" }
+func (TemporaryFault) Temporary() bool { return true }
+func (TemporaryFault) Timeout() bool   { return false }
+
 // FaultKinds lists all injectable failure kinds.
-var FaultKinds = []string{FaultEOF, FaultUnexpected, FaultCustom, FaultPartial, FaultTransient, FaultTypedEOF}
+var FaultKinds = []string{FaultEOF, FaultUnexpected, FaultCustom, FaultPartial, FaultTransient, FaultTypedEOF, FaultTemporary}
 
 // Reader is a concurrency-safe stream over a fixed byte slice with a chunk
 // plan (how many bytes each Read may return), an optional fault offset and an
@@ -50,6 +58,7 @@ type Reader struct {
 	Delivered int
 	InRead    int32
 	Wrap      bool // cycle data forever (periodic sources)
+	EOFWithData bool // when a Read delivers the last byte of the data it returns io.EOF together with it (allowed by io.Reader)
 }
 
 func NewReader(data []byte) *Reader { return &Reader{data: data, Fault: -1} }
@@ -60,6 +69,8 @@ func (r *Reader) failure() error {
 		return io.EOF
 	case FaultUnexpected:
 		return io.ErrUnexpectedEOF
+	case FaultTemporary:
+		return TemporaryFault{}
 	case FaultTypedEOF:
 		if r.Faulted == 0 {
 			return &DeviceFault{Code: 5}
@@ -127,6 +138,9 @@ func (r *Reader) Read(p []byte) (int, error) {
 			}
 			n = copy(p[:want], r.data[r.off:r.off+want])
 			r.off += n
+			if r.EOFWithData && r.Fault < 0 && r.off == len(r.data) && err == nil {
+				err = io.EOF
+			}
 		}
 	}
 	r.Delivered += n
@@ -141,6 +155,13 @@ func (r *Reader) Read(p []byte) (int, error) {
 		time.Sleep(time.Duration(delay) * time.Microsecond)
 	}
 	return n, err
+}
+
+// FailedReads returns how many Reads returned an injected error so far.
+func (r *Reader) FailedReads() int {
+	r.mu.Lock()
+	defer r.mu.Unlock()
+	return r.Faulted
 }
 
 // Consumed returns how many bytes were delivered so far.
